@@ -1,16 +1,148 @@
-// Command vsched-selftest builds against the instrumented badwolf packages and
-// runs a handful of end-to-end sanity scenarios of the engine on the real code
-// (the toy-program tests with known answers live in verif/explore as Go tests).
+// Command vsched-selftest checks the vsched engine itself:
+//
+//  1. toy programs with known answers (go test ./explore): interleaving counts,
+//     lost update at exactly one deviation, lock-order deadlock, RWMutex
+//     writer-preference deadlock, buffered vs unbuffered channels, select
+//     enumeration, WaitGroup / Once, double close, leak, horizon,
+//     nondeterminism detection, foreign channels + Choose, map order, shards;
+//  2. the repository's own tests for the instrumented packages, run on the
+//     instrumented build with the scheduler off (the rewrite preserves
+//     semantics);
+//  3. end-to-end on the real code under the scheduler: a BQL INSERT + SELECT in
+//     the default schedule and with one deviation must give the sequential
+//     answer, twice the same op trace.
+//
+// Built by build.sh (needs the overlay). Exit 0 = all green.
 package main
 
 import (
+	"context"
 	"fmt"
+	"os"
+	"os/exec"
+	"sort"
+	"strings"
 
-	_ "github.com/google/badwolf/bql/grammar"
-	_ "github.com/google/badwolf/bql/planner"
-	_ "github.com/google/badwolf/io"
-	_ "github.com/google/badwolf/storage/memoization"
-	_ "github.com/google/badwolf/storage/memory"
+	"github.com/google/badwolf/bql/grammar"
+	"github.com/google/badwolf/bql/planner"
+	"github.com/google/badwolf/bql/semantic"
+	"github.com/google/badwolf/storage"
+	"github.com/google/badwolf/storage/memory"
+
+	"verif/explore"
+	"verif/vrt"
 )
 
-func main() { fmt.Println("ok") }
+func bql(ctx context.Context, st storage.Store, text string) ([]string, error) {
+	p, err := grammar.NewParser(grammar.SemanticBQL())
+	if err != nil {
+		return nil, err
+	}
+	stm := &semantic.Statement{}
+	if err := p.Parse(grammar.NewLLk(text, 1), stm); err != nil {
+		return nil, err
+	}
+	pln, err := planner.New(ctx, st, stm, 0, 1, nil)
+	if err != nil {
+		return nil, err
+	}
+	tbl, err := pln.Execute(ctx)
+	if err != nil {
+		return nil, err
+	}
+	var rows []string
+	for _, r := range tbl.Rows() {
+		var cs []string
+		for _, b := range tbl.Bindings() {
+			cs = append(cs, b+"="+r[b].String())
+		}
+		sort.Strings(cs)
+		rows = append(rows, strings.Join(cs, " "))
+	}
+	sort.Strings(rows)
+	return rows, nil
+}
+
+func run(name string, args ...string) bool {
+	cmd := exec.Command(args[0], args[1:]...)
+	cmd.Dir = root()
+	cmd.Env = os.Environ()
+	out, err := cmd.CombinedOutput()
+	tail := strings.TrimSpace(string(out))
+	if len(tail) > 3000 {
+		tail = tail[len(tail)-3000:]
+	}
+	if err != nil {
+		fmt.Printf("FAIL %s: %v\n%s\n", name, err, tail)
+		return false
+	}
+	fmt.Printf("ok   %s\n", name)
+	for _, l := range strings.Split(tail, "\n") {
+		if strings.HasPrefix(l, "ok") || strings.HasPrefix(l, "---") {
+			fmt.Println("     " + l)
+		}
+	}
+	return true
+}
+
+func root() string {
+	if r := os.Getenv("VERIF_ROOT"); r != "" {
+		return r
+	}
+	return "/verif"
+}
+
+func main() {
+	ok := true
+	ok = run("toy programs with known answers (go test ./explore)", "go", "test", "-count=1", "./explore") && ok
+	ov := root() + "/work/instr/selftest/overlay.json"
+	ok = run("repository tests on the instrumented build, scheduler off", "go", "test", "-overlay", ov, "-vet=off", "-count=1",
+		"github.com/google/badwolf/storage/...", "github.com/google/badwolf/bql/...", "github.com/google/badwolf/triple/...", "github.com/google/badwolf/io/...") && ok
+
+	// end-to-end under the scheduler
+	ctx := context.Background()
+	mk := func() explore.Exec {
+		var rows []string
+		var err error
+		return explore.Exec{
+			Body: func() {
+				st := memory.NewStore()
+				if _, err = st.NewGraph(ctx, "?g"); err != nil {
+					return
+				}
+				if _, err = bql(ctx, st, `insert data into ?g {/u<a> "p"@[] /u<b> . /u<b> "q"@[] /u<c>};`); err != nil {
+					return
+				}
+				rows, err = bql(ctx, st, `select ?x, ?y from ?g where {/u<a> "p"@[] ?x . ?x "q"@[] ?y};`)
+				vrt.MarkReturned()
+			},
+			Check: func(out *vrt.Outcome) ([]explore.Verdict, string) {
+				var vs []explore.Verdict
+				if v := explore.GlobalVerdict("e2e", out); v != nil {
+					vs = append(vs, *v)
+				}
+				got := fmt.Sprintf("%v err=%v", rows, err)
+				if out.Status == vrt.StOK && got != "[?x=/u<b> ?y=/u<c>] err=<nil>" {
+					vs = append(vs, explore.Verdict{Class: "e2e", Shape: "wrong-answer", Detail: got})
+				}
+				return vs, got
+			},
+		}
+	}
+	res := explore.Explore("e2e-bql", explore.Options{Mode: explore.Bounded, Bound: 1, Cfg: vrt.Config{Procs: 2}}, mk)
+	switch {
+	case res.Nondet != "":
+		fmt.Printf("FAIL end-to-end: NONDETERMINISM %s\n", res.Nondet)
+		ok = false
+	case len(res.Failures) > 0 || !res.Complete || res.Executions < 50:
+		fmt.Printf("FAIL end-to-end: %d executions, complete=%v, failures %+v\n", res.Executions, res.Complete, res.Failures)
+		ok = false
+	default:
+		fmt.Printf("ok   end-to-end BQL insert+select on the instrumented stack: %d schedules (<= 1 deviation), %d partial orders, max %d steps, %d threads, outcomes %v\n",
+			res.Executions, res.DistinctHB, res.MaxSteps, res.MaxThreads, res.Outcomes)
+	}
+	if !ok {
+		os.Exit(1)
+	}
+	fmt.Println("vsched self-test: all green")
+}
